@@ -22,6 +22,7 @@ from util import TensorProduct, Hamiltonian, TTNO, TTNS, Node
 METHODS = ["SGE", "BIPARTITE", "TREE", "BASE"]
 KF_TREE = "C01-tree-coefficients"
 KF_DUP = "C01-duplicate-terms"
+KF_SGE = "C01-sge-symbolic-regroup"
 IMPORTS = ("From Coq Require Import List Arith Bool QArith. From PTN Require Import Tree.RTree SD.Model SD.Core. "
            "Import ListNotations.")
 TOL = 1e-9
@@ -840,7 +841,7 @@ class C01(Prop):
             amb = rng.random() < 0.2          # operator names with ambiguous concatenations on the dimension-2 sites
             if amb:
                 phys = [min(d, AMB_DIM) for d in phys]
-            gamma = n >= 2 and rng.random() < 0.25      # a random symbolic coefficient matrix across one edge
+            gamma = n >= 2 and rng.random() < 0.3      # a random symbolic coefficient matrix across one edge
             if gamma:
                 coefmode, dupmode = "sym", rng.choice(["none", "none", "none", "prop"])
                 product = rng.random() < 0.5
@@ -994,6 +995,7 @@ class C01(Prop):
             raw = {tuple(s_[i] for i in pre) for s_ in padded_strings(case)}
             have = {k[1] for k in sp}
             ob["support_ok"] = ({k[1] for k in hp} <= have <= raw)
+            ob["strings_sub"] = (have <= raw)
         if dense is not None:
             ob["sel_dev"] = float(np.max(np.abs(eval_poly(sp, case, conv, cm) - dense)))
         return ob
@@ -1179,6 +1181,8 @@ class C01(Prop):
                 note += "; the diagram denotes the Hamiltonian with exactly repeated terms counted fewer times"
             if ob.get("support_ok"):
                 note += "; operator strings agree, coefficients differ"
+            elif ob.get("strings_sub"):
+                note += "; no operator string outside the Hamiltonian's, some are lost"
             return f"[{m}] TTNO differs from sum_k c_k (x) A_k: {ob['oracle_dev']}{note}"
         if isinstance(ob["as_matrix_dev"], str) or ob["as_matrix_dev"] > tol:
             return f"[{m}] as_matrix() differs from sum_k c_k (x) A_k: {ob['as_matrix_dev']}"
@@ -1195,20 +1199,26 @@ class C01(Prop):
             return KF_TREE
         if case["method"] in ("SGE", "BIPARTITE", "TREE") and f["exact_dup"]:
             return KF_DUP
+        if case["method"] == "SGE" and len({t[2] for t in case["terms"]}) >= 2:
+            return KF_SGE
         return None
 
     def _known_instance(self, case, ob):
         """the recorded finding an inexact exported diagram reproduces, else None"""
         kid = self._class_of(case)
-        if kid == KF_TREE and ob.get("support_ok"):
+        if kid == KF_TREE and ob.get("strings_sub"):
+            return kid
+        if kid == KF_SGE and ob.get("support_ok"):
             return kid
         if kid == KF_DUP and ob.get("mult_lost"):
             return kid
         return None
 
     def classify(self, case, what, known):
-        """C01-tree-coefficients: method TREE, some (lambda, gamma) != (1, "1"), the diagram has the Hamiltonian's operator
-        strings and only coefficients are wrong.  C01-duplicate-terms: method SGE/BIPARTITE/TREE, two padded terms are
+        """C01-tree-coefficients: method TREE, some (lambda, gamma) != (1, "1"), the diagram has no operator string outside the
+        Hamiltonian's (coefficients wrong, with repeated strings whole strings may be lost).  C01-sge-symbolic-regroup (proposed):
+        method SGE, no exactly repeated term, at least two different coefficient symbols (counting "1"), the diagram has exactly
+        the Hamiltonian's operator strings and only coefficients are wrong.  C01-duplicate-terms: method SGE/BIPARTITE/TREE, two padded terms are
         identical (prefactor, symbol, operator string), and the diagram denotes the Hamiltonian with repeated terms counted fewer times (>= once), or
         the construction dies with the IndexError of _remove_reduntant_v_hyperedges.  Anything else stays a violation."""
         if what.startswith("tie:"):
@@ -1217,7 +1227,9 @@ class C01(Prop):
         if kid is None or kid not in known:
             return None
         numeric = "TTNO differs from sum_k c_k (x) A_k" in what and "failed" not in what and "shape" not in what
-        if kid == KF_TREE and numeric and "operator strings agree, coefficients differ" in what:
+        if kid == KF_TREE and numeric and ("operator strings agree, coefficients differ" in what or "no operator string outside" in what):
+            return kid
+        if kid == KF_SGE and numeric and "operator strings agree, coefficients differ" in what:
             return kid
         if kid == KF_DUP and numeric and "exactly repeated terms counted fewer times" in what:
             return kid
